@@ -74,6 +74,38 @@ fn run_file(scratch: &Scratch, file: &std::path::Path, stack: bool, minimal: boo
     )
 }
 
+/// The object file offered as a named pipe (what `lace run <(producer)` or a link to /dev/stdin
+/// amounts to): no size known in advance, the bytes arrive in pieces.
+fn run_via_fifo(scratch: &Scratch, bytes: &[u8], piece: usize, stack: bool, minimal: bool) -> Option<Proc> {
+    use std::io::Write;
+    use std::os::unix::fs::OpenOptionsExt;
+    let path = scratch.path("piped.lc3");
+    let _ = std::fs::remove_file(&path);
+    let c_path = std::ffi::CString::new(path.as_os_str().as_encoded_bytes()).ok()?;
+    if unsafe { libc::mkfifo(c_path.as_ptr(), 0o600) } != 0 {
+        return None;
+    }
+    let data = bytes.to_vec();
+    let writer_path = path.clone();
+    let writer = std::thread::spawn(move || {
+        // Blocks until the other side opens the pipe for reading
+        if let Ok(mut pipe) = std::fs::OpenOptions::new().write(true).open(&writer_path) {
+            for chunk in data.chunks(piece.max(1)) {
+                if pipe.write_all(chunk).is_err() {
+                    break;
+                }
+                std::thread::yield_now();
+            }
+        }
+    });
+    let proc_ = run_file(scratch, &path, stack, minimal, None);
+    // Should the program never have opened the pipe, let the writer go
+    drop(std::fs::OpenOptions::new().read(true).custom_flags(libc::O_NONBLOCK).open(&path));
+    let _ = writer.join();
+    let _ = std::fs::remove_file(&path);
+    Some(proc_)
+}
+
 impl Check for C06 {
     fn id(&self) -> &'static str {
         ID
@@ -261,6 +293,29 @@ impl Check for C06 {
                 ));
             }
             report.hit(&format!("probe:end_{}", from_obj.label()));
+
+            // ----- (b') the same bytes through a named pipe, in pieces -----
+            if expected.len() <= 60_000 {
+                let piece = *[1usize, 2, 3, 7, 512, 4096].get(expected.len() % 6).unwrap_or(&2);
+                if let Some(piped) = run_via_fifo(&scratch, &expected, piece, stack, minimal) {
+                    procs += 1;
+                    report.hit("fault:object_file_is_a_pipe");
+                    hash.extend_from_slice(piped.label().as_bytes());
+                    if piped.label() != from_obj.label() || program_output(&piped.stdout) != program_output(&from_obj.stdout) {
+                        v.push(Violation::new(
+                            ID,
+                            "C06/pipe/differs-from-file",
+                            format!(
+                                "the object file offered as a named pipe ({} bytes in pieces of {}): {}, as a regular file: {}",
+                                expected.len(),
+                                piece,
+                                piped.label(),
+                                from_obj.label()
+                            ),
+                        ));
+                    }
+                }
+            }
 
             // ----- (d) read faults on the object file must be transparent -----
             let k = scenario.get_int("read_fault_at").unwrap_or(1);
